@@ -222,6 +222,15 @@ func (vlog *valueLog) removeValueLogFile(bucket uint32, fid uint32) error {
 	if err != nil {
 		return err
 	}
+	// Values of this segment that were still live have been re-inserted by the GC rewrite, but
+	// with SyncWrites off their new pointers may only sit in the WAL's user-space buffer. They
+	// must be durable before the segment is dropped: otherwise a crash leaves the LSM pointing
+	// into a file that no longer exists.
+	if vlog.db.wal != nil {
+		if err := vlog.db.wal.Sync(); err != nil {
+			return errors.Wrapf(err, "sync wal before value log delete fid %d (bucket %d)", fid, bucket)
+		}
+	}
 	status := vlog.db.lsm.ValueLogStatus()
 	var (
 		meta    manifest.ValueLogMeta
